@@ -503,6 +503,154 @@ def mnorm2Sq [Add K] [OfNat K 0] (nsq : K → K) (a : MFld K) : K := sumOver a.l
 /-- MultiField.norm(inf) = max leafnorm -/
 def mnormInf [OfNat K 0] (mx : K → K → K) (ab : K → K) (a : MFld K) : K := maxOver mx a.leaves fun kv => normInf mx ab kv.2
 
+/-! ### element-wise operators of Field._binary_op / unary operators / clip (the NumPy ufunc semantics on one entry) -/
+
+/-- the twelve binary operators installed on Field and MultiField -/
+inductive BinOp where
+  | add | sub | mul | truediv | floordiv | pow | lt | le | gt | ge | eq | ne
+deriving DecidableEq, Repr
+
+/-- what NumPy provides on the element type beyond the field operations -/
+structure ElemOps (K : Type) where
+  /-- `<` (lexicographic on complex numbers) -/
+  lt : K → K → Bool
+  /-- `<=` -/
+  le : K → K → Bool
+  /-- `floor_divide` on real values -/
+  floordiv : K → K → K
+  /-- the exponent as a natural number (generated exponents are small non-negative integers) -/
+  expNat : K → Nat
+  /-- the value is a negative real number -/
+  isNeg : K → Bool
+  /-- the value is not a non-negative integer (exponents the model does not evaluate) -/
+  notNatVal : K → Bool
+  conj : K → K
+  re : K → K
+  im : K → K
+
+def ofB [OfNat K 0] [OfNat K 1] (b : Bool) : K := if b then 1 else 0
+
+/-- one entry of the result of `a <op> b` -/
+def evalBin [Add K] [Sub K] [Mul K] [Inv K] [OfNat K 0] [OfNat K 1] [DecidableEq K] (E : ElemOps K) :
+    BinOp → K → K → K
+  | .add, a, b => a + b
+  | .sub, a, b => a - b
+  | .mul, a, b => a * b
+  | .truediv, a, b => a * b⁻¹
+  | .floordiv, a, b => E.floordiv a b
+  | .pow, a, b => npow a (E.expNat b)
+  | .lt, a, b => ofB (E.lt a b)
+  | .le, a, b => ofB (E.le a b)
+  | .gt, a, b => ofB (E.lt b a)
+  | .ge, a, b => ofB (E.le b a)
+  | .eq, a, b => ofB (decide (a = b))
+  | .ne, a, b => ofB (decide (a ≠ b))
+
+/-- dtype kind of the result (NumPy promotion on the generated kinds; a Python scalar enters with its own kind) -/
+def binDt : BinOp → DT → DT → DT
+  | .add, x, y | .sub, x, y | .mul, x, y | .floordiv, x, y | .pow, x, y => max x y
+  | .truediv, x, y => max (max x y) DT.float
+  | _, _, _ => DT.bool
+
+/-- what NumPy refuses before computing anything (error kinds); "model-unsupported" marks inputs the model does not
+    evaluate (division by zero, non-integer or negative exponents of non-integers) — never generated -/
+def binGuard [OfNat K 0] [DecidableEq K] (E : ElemOps K) (o : BinOp) (dta dtb : DT) (bvals : List K) : Option String :=
+  if o = .floordiv ∧ (dta = DT.complex ∨ dtb = DT.complex) then some "TypeError"
+  else if o = .pow ∧ dta ≤ DT.int ∧ dtb ≤ DT.int ∧ bvals.any E.isNeg then some "ValueError"
+  else if o = .pow ∧ bvals.any E.notNatVal then some "model-unsupported"
+  else if (o = .truediv ∨ o = .floordiv) ∧ bvals.any (fun b => decide (b = 0)) then some "model-unsupported"
+  else none
+
+/-- Field.<op>(other: Field) (`rev`: the reflected operator `__r<op>__`, i.e. `other <op> self`):
+    identity check of the domains, NumPy's own argument checks, then entry by entry -/
+def fieldBin [Add K] [Sub K] [Mul K] [Inv K] [OfNat K 0] [OfNat K 1] [DecidableEq K] (E : ElemOps K)
+    (o : BinOp) (rev : Bool) (f g : Fld K) : Except String (Fld K) :=
+  if g.dom ≠ f.dom then .error "ValueError" else
+  let a := if rev then g else f
+  let b := if rev then f else g
+  match binGuard E o a.dt b.dt ((allIdx b.sizes).map b.val) with
+  | some e => .error e
+  | none =>
+    if rev then binop (fun x y => evalBin E o y x) (fun x y => binDt o y x) f g
+    else binop (evalBin E o) (binDt o) f g
+
+/-- Field.<op>(other: Python scalar of kind `cdt`) -/
+def fieldBinScalar [Add K] [Sub K] [Mul K] [Inv K] [OfNat K 0] [OfNat K 1] [DecidableEq K] (E : ElemOps K)
+    (o : BinOp) (rev : Bool) (f : Fld K) (c : K) (cdt : DT) : Except String (Fld K) :=
+  let g : Option String :=
+    if rev then binGuard E o cdt f.dt ((allIdx f.sizes).map f.val) else binGuard E o f.dt cdt [c]
+  match g with
+  | some e => .error e
+  | none =>
+    if rev then .ok (binopScalar (fun x y => evalBin E o y x) (fun x y => binDt o y x) f c cdt)
+    else .ok (binopScalar (evalBin E o) (binDt o) f c cdt)
+
+/-- unary operators; `abs` is separate (square root for complex data) -/
+inductive UnOp where
+  | neg | pos | conjugate | real | imag
+deriving DecidableEq, Repr
+
+/-- `conjugate`, `real`, `+x` hand back the very same Field object when there is nothing to do -/
+def unSame : UnOp → DT → Bool
+  | .pos, _ => true
+  | .conjugate, d => d != DT.complex
+  | .real, d => d != DT.complex
+  | _, _ => false
+
+def fieldUn [Neg K] (E : ElemOps K) (o : UnOp) (f : Fld K) : Except String (Fld K) :=
+  match o with
+  | .neg => .ok (unop (fun x => -x) id f)
+  | .pos => .ok f
+  | .conjugate => if f.dt = DT.complex then .ok (unop E.conj id f) else .ok f
+  | .real => if f.dt = DT.complex then .ok (unop E.re (fun _ => DT.float) f) else .ok f
+  | .imag => if f.dt = DT.complex then .ok (unop E.im (fun _ => DT.float) f) else .error "ValueError"
+
+/-- `np.clip(x, lo, hi)` = `minimum(maximum(x, lo), hi)`; a missing bound does nothing -/
+def clipVal (E : ElemOps K) (lo hi : Option K) (x : K) : K :=
+  let y := match lo with | some l => if E.lt x l then l else x | none => x
+  match hi with | some h => if E.lt h y then h else y | none => y
+
+/-- Field.clip(a_min, a_max) with Python scalar bounds of kinds `ldt`, `hdt` -/
+def fieldClip (E : ElemOps K) (f : Fld K) (lo hi : Option K) (ldt hdt : DT) : Fld K :=
+  { f with dt := max f.dt (max (if lo.isSome then ldt else 0) (if hi.isSome then hdt else 0)),
+           val := fun i => clipVal E lo hi (f.val i) }
+
+/-! ### all / any / size -/
+
+/-- Field.s_all: every entry is non-zero -/
+def sAll [OfNat K 0] [DecidableEq K] (f : Fld K) : Bool := (allIdx f.sizes).all fun i => decide (f.val i ≠ 0)
+/-- Field.s_any -/
+def sAny [OfNat K 0] [DecidableEq K] (f : Fld K) : Bool := (allIdx f.sizes).any fun i => decide (f.val i ≠ 0)
+
+/-- `x.all(axis=…)` -/
+def contractAll [OfNat K 0] [OfNat K 1] [DecidableEq K] (mask : List Bool) (sizes : List Nat) (x : Idx → K) : Idx → K :=
+  fun o => ofB ((allIdx (sel true mask sizes)).all fun c => decide (x (merge mask o c) ≠ 0))
+/-- `x.any(axis=…)` -/
+def contractAny [OfNat K 0] [OfNat K 1] [DecidableEq K] (mask : List Bool) (sizes : List Nat) (x : Idx → K) : Idx → K :=
+  fun o => ofB ((allIdx (sel true mask sizes)).any fun c => decide (x (merge mask o c) ≠ 0))
+
+/-- Field.all(spaces) -/
+def fall [OfNat K 0] [OfNat K 1] [DecidableEq K] (f : Fld K) (sp : Spaces) : Except String (Fld K) :=
+  match parseSpaces sp f.subs.length with
+  | .error e => .error e
+  | .ok l => .ok (contractFld f l DT.bool contractAll)
+/-- Field.any(spaces) -/
+def fany [OfNat K 0] [OfNat K 1] [DecidableEq K] (f : Fld K) (sp : Spaces) : Except String (Fld K) :=
+  match parseSpaces sp f.subs.length with
+  | .error e => .error e
+  | .ok l => .ok (contractFld f l DT.bool contractAny)
+
+/-- MultiField.s_all: the loop returns False at the first leaf that is not all-true -/
+def msAll [OfNat K 0] [DecidableEq K] (a : MFld K) : Bool := a.leaves.all fun kv => sAll kv.2
+/-- MultiField.s_any -/
+def msAny [OfNat K 0] [DecidableEq K] (a : MFld K) : Bool := a.leaves.any fun kv => sAny kv.2
+/-- MultiField.size = sum of the leaf domain sizes -/
+def msize (a : MFld K) : Nat := (a.leaves.map fun kv => prodNat kv.2.sizes).sum
+
+/-- SPECIFICATION side: the MultiField `α·a + b` leaf by leaf (used to state linearity of MultiField.vdot) -/
+def mlin [Add K] [Mul K] (α : K) (a b : MFld K) : MFld K :=
+  { a with leaves := List.zipWith (fun x y => (x.1, { x.2 with val := fun i => α * x.2.val i + y.2.val i })) a.leaves b.leaves }
+
 end Ops
 
 /-! ### the driver's scalar type: complex numbers with exact rational parts -/
@@ -529,6 +677,17 @@ def nsq (a : CRat) : CRat := ⟨a.normSq, 0⟩
 /-- NumPy orders complex numbers lexicographically -/
 def lt (a b : CRat) : Bool := a.re < b.re || (a.re == b.re && a.im < b.im)
 def le (a b : CRat) : Bool := a.re < b.re || (a.re == b.re && a.im ≤ b.im)
+/-- NumPy's element operations on exact complex rationals -/
+def elemOps : ElemOps CRat where
+  lt := lt
+  le := le
+  floordiv a b := ofRat ((a.re / b.re).floor : Int)
+  expNat b := b.re.num.toNat
+  isNeg b := b.re < 0
+  notNatVal b := b.im != 0 || b.re.den != 1 || b.re < 0
+  conj := conj
+  re a := ⟨a.re, 0⟩
+  im a := ⟨a.im, 0⟩
 end CRat
 
 end NiftyVerif.FieldM
